@@ -216,7 +216,8 @@ def restricted_string_type(
 
 
 def _is_path_type(value, type_class):
-    return isinstance(value, Path)
+    # a Path created for another mode has not been checked against this type's mode
+    return isinstance(value, Path) and sorted(value.mode) == sorted(getattr(type_class, "_mode", value.mode))
 
 
 def path_type(mode: str, docstring: Optional[str] = None, **kwargs) -> _TypeAlias:
